@@ -98,7 +98,7 @@ def inline_unknown_helpers(raw, max_rounds=4):
                 # do not inline something that (transitively, directly) calls the caller back
                 if any(_callee_path(x["term"])[0] in (b["path"], path) for x in callee["blocks"] if x["term"].get("t") == "call"):
                     continue
-                _splice(b, bi, callee)
+                _splice(b, bi, callee, _subst_for(raw, t, callee), raw)
                 done.append((b["path"], path))
                 changed = True
         if not changed:
@@ -137,7 +137,125 @@ def value_referenced(raw, paths):
     return out
 
 
-def _splice(caller, bi, callee):
+def _subst_for(raw, call, callee):
+    """generic parameter name of the callee -> the argument this call site instantiates it with"""
+    fn = call["func"]["fn"]
+    gen = _generics(raw).get(callee["path"])
+    args = fn.get("args")
+    if fn.get("resolved") and fn.get("trait") and gen is not None and args is not None and len(args) != len(gen):
+        # devirtualised call: the args are those of the trait method (Self first), the callee is the impl's method
+        args = args[len(args) - len(gen):] if len(args) > len(gen) else None
+    if not gen or args is None or len(gen) != len(args):
+        return {}
+    return {g: a for g, a in zip(gen, args) if g != a and not g.startswith("'")}
+
+
+def _generics(raw):
+    g = raw.get("_generics")
+    if g is None:
+        g = raw["_generics"] = {f["path"]: f.get("generics") for f in raw.get("fns", []) if f.get("generics") is not None}
+    return g
+
+
+import re
+_ASSOC = re.compile(r"^<(\w+) as ([\w:]+(?:<.*>)?)>::(\w+)$")
+
+
+def _consts(raw):
+    c = raw.get("_consts_by_path")
+    if c is None:
+        c = raw["_consts_by_path"] = {x["path"]: x for x in raw.get("consts", [])}
+    return c
+
+
+def _base(ty):
+    ty = ty.lstrip("&").strip()
+    if ty.startswith("mut "):
+        ty = ty[4:]
+    return ty.split("<", 1)[0]
+
+
+def _impl_methods(raw):
+    """(trait, self type without its generic arguments) -> trait_ref of the one impl, and the set of body paths"""
+    m = raw.get("_impl_methods")
+    if m is None:
+        m = raw["_impl_methods"] = {"paths": {b["path"] for b in raw["bodies"]}, "impl": {}}
+        for im in raw.get("impls", []):
+            if im.get("trait") and im.get("trait_ref") and not im.get("derived"):
+                m["impl"].setdefault((im["trait"], _base(im["self_ty"])), []).append(im)
+    return m
+
+
+def _devirtualise(raw, blocks, subst):
+    """A call `<S as Trait>::method` in a generic helper names no function until S is known.  Once the
+    helper is spliced into a caller that instantiates S with a local type, the call is a plain call of that
+    type's impl method: substitute the generic arguments and point the call at it."""
+    if not subst:
+        return
+    im = _impl_methods(raw)
+
+    def one(fn):
+        if not fn.get("args"):
+            return
+        new = [subst.get(a, a) for a in fn["args"]]
+        if new == fn["args"]:
+            return
+        fn["args"] = new
+        tr = fn.get("trait")
+        ims = im["impl"].get((tr, _base(new[0])), []) if tr and "resolved" not in fn else []
+        if len(ims) == 1 and not new[0].startswith("&"):
+            name = fn["path"].rsplit("::", 1)[-1]
+            cand = ims[0]["trait_ref"] + "::" + name
+            if name in ims[0].get("items", []) and cand in im["paths"]:
+                fn["resolved"] = cand
+                fn["resolved_local"] = True
+
+    def assoc_const(o):
+        """`<L as Trait>::NAME` with L now known: the value the impl gives it"""
+        m = _ASSOC.match(o["text"])
+        if not m or m.group(1) not in subst:
+            return
+        ty = subst[m.group(1)]
+        ims = im["impl"].get((m.group(2).split("<", 1)[0], _base(ty)), [])
+        if len(ims) != 1:
+            return
+        c = _consts(raw).get(ims[0]["trait_ref"] + "::" + m.group(3))
+        if c is None or c.get("int") is None:
+            return
+        width = {"u8": 1, "u16": 2, "u32": 4, "u64": 8, "u128": 16, "usize": 8, "i8": 1, "i16": 2, "i32": 4, "i64": 8, "i128": 16, "isize": 8, "bool": 1}.get(c["ty"])
+        if width is not None:
+            v = int(c["int"])
+            o.pop("text")
+            o.update({"int": str(v), "bits": str(v % (1 << (8 * width))), "size": width, "assoc": ims[0]["trait_ref"] + "::" + m.group(3)})
+            return
+        for adt in raw.get("adts", []):
+            if adt["path"] == c["ty"] and adt["kind"] == "Enum" and all(not v["fields"] for v in adt["variants"]):
+                names = [v["name"] for v in adt["variants"] if v.get("discr") == c["int"]]
+                if len(names) == 1:
+                    o.update({"text": c["ty"] + "::" + names[0], "variant": names[0]})
+
+    def walk(o):
+        # calls and function values alike (`.map(D::step)`)
+        if isinstance(o, dict):
+            if o.get("k") == "const" and isinstance(o.get("fn"), dict):
+                one(o["fn"])
+                return
+            if o.get("k") == "const" and isinstance(o.get("text"), str) and o["text"].startswith("<"):
+                assoc_const(o)
+                return
+            for k, v in o.items():
+                if k != "span":
+                    walk(v)
+        elif isinstance(o, list):
+            for v in o:
+                walk(v)
+
+    for blk in blocks:
+        walk(blk["stmts"])
+        walk(blk["term"])
+
+
+def _splice(caller, bi, callee, subst=None, raw=None):
     lo = len(caller["locals"])
     bo = len(caller["blocks"])
     call = caller["blocks"][bi]["term"]
@@ -162,6 +280,8 @@ def _splice(caller, bi, callee):
                 blk["term"] = {"t": "goto", "target": cont, "span": sp}
         elif blk["term"].get("t") == "resume" and isinstance(call.get("unwind"), int):
             blk["term"] = {"t": "goto", "target": call["unwind"], "span": blk["term"]["span"]}
+    if raw is not None:
+        _devirtualise(raw, blocks, subst)
     caller["blocks"].extend(blocks)
     # argument passing
     entry = caller["blocks"][bi]
